@@ -309,7 +309,20 @@ func ruleMOD(c *Ctx) {
 				n++
 				// following statements: [if err…], emit(OpConstant, addConstant(compiled)), emit(OpCall, 0, 0)
 				var emits []string
+				// a small helper that emits the pair is read as its body
+				var follow []ast.Stmt
 				for _, t := range list[i+1:] {
+					if es, ok := t.(*ast.ExprStmt); ok {
+						if call, ok := es.X.(*ast.CallExpr); ok && !isMethodOf(Callee(p, call), p.Types, "Compiler", "emit") {
+							if hd := gHelpers[call]; hd != nil && hd.Body != nil {
+								follow = append(follow, hd.Body.List...)
+								continue
+							}
+						}
+					}
+					follow = append(follow, t)
+				}
+				for _, t := range follow {
 					if es, ok := t.(*ast.ExprStmt); ok {
 						if call, ok := es.X.(*ast.CallExpr); ok && isMethodOf(Callee(p, call), p.Types, "Compiler", "emit") {
 							parts := []string{}
@@ -599,7 +612,13 @@ func ruleERR(c *Ctx) {
 			if t := p.TypesInfo.Types[id].Type; t == nil || !types.Identical(t, errT) {
 				return true
 			}
-			L := is.Body.List
+			// the block as it runs for an error that is none of the values it
+			// compares with (the dispatch may be if-chain or switch)
+			errObj := p.TypesInfo.ObjectOf(id)
+			L := execFor(p, is.Body.List, func(e ast.Expr) bool {
+				x, ok := ast.Unparen(e).(*ast.Ident)
+				return ok && p.TypesInfo.ObjectOf(x) == errObj
+			}, nil)
 			good := false
 			if len(L) >= 1 {
 				switch last := L[len(L)-1].(type) {
